@@ -98,6 +98,36 @@ claim("C19", "DESIGN.md §4 C19",
       "Decides no-panic and table agreement, not equality with the % operator: (N1) no panic-capable site beyond the reviewed rows (the two unreachable! are the documented caller contract); (D.peek) all 9 iter.next().unwrap() follow a peek() that returned Some; (N2) no unsigned underflow: fills use saturating_sub, quantities use checked i32 arithmetic, bytes precision slices at min(len, precision); (T1) 5 flags, 17 conversion characters, at most one length modifier skipped, %c ignores precision; (Q1) key, flags, width, precision, length, type order, %% and trailing-% handling; (A1) LEFT_ADJUST side, sign/prefix before zero fill and counted in the width.",
       "Static rule discharge over MIR facts of rustpython_format and format/src/cformat.rs." + COMMON_NOTE)
 
+
+# additions made while deepening the checks (appended to the technique / level text of the claim above)
+COMMON_TECH = " All rules read the subject's syntax trees in a normal form (if-let/match/matches!/==Some, while-let/loop, let-else, tail return, literal spelling, arm order; tools/rpverif/src/normalize.rs), so they do not depend on how a decision is spelled."
+ADD = {
+ "C01": ("interpretation of the identifier predicates over all ASCII characters and every XID class (I2); interpretation of the start_of_line update for every token kind (S1); counter-guard and lambda-pairing rules of the soft-keyword look-ahead (S2)",
+         " Also: (I2) is_identifier_start/continuation interpreted = Python's identifier grammar; (S2) every write of the look-ahead loops happens at bracket depth 0 and lambda colons are paired by count."),
+ "C02": ("scenario execution of Lexer::next_char with evaluated byte amounts (N1); provenance of ranges assigned in function.rs/context.rs/string.rs (R9)",
+         " Also: (R9) keyword-argument ranges are exactly the @L/@R pair handed over by the grammar; no hand-written range is derived from a child's start()/end()."),
+ "C03": ("site-independent discharges (window indices, position advances, counters, dominated unwraps) applied per site so that extracting a helper does not create an unreviewed obligation; function summaries of the consuming helpers by least fixpoint (P3); dimension analysis of TextSize values over MIR value-flow facts (U2); thorough tier repeats the MIR rules under --features full-lexer and all-nodes-with-ranges",
+         " Also: (P3) every normal-return path of consume_normal/consume_character and of each consuming helper consumes a character or emits a token; (U2) no length or constant flows into a position sink."),
+ "C04": ("interpretation of compare_strict over the 3x3 (tabs, spaces) orderings; exit summaries (decisions -> Err/Ok) of validate_pos_params and parse_args independent of return style; structural look-ahead-before-consumption rule for numeric shape checks",
+         ""),
+ "C05": ("character-class based classification of the layout arms; end-of-input branch read structurally",
+         ""),
+ "C06": ("radix forwarding rule over the radix-parameterised lexer functions (R2); bound of the \\N{name} length guard compared with the longest name in the locked unicode_names2 data (N2)",
+         " Also: (R2) digits, separator look-ahead and value conversion use the literal's own radix; (N2) no known Unicode name is rejected by length."),
+ "C08": ("position comparisons only (nothing may branch on a position) instead of arithmetic tables; character-folding scenarios of next_char; three-way agreement of the feature-gated trivia kinds with the interpreted start_of_line update (S2)",
+         ""),
+ "C09": ("dimension analysis of TextSize values over MIR value-flow facts replaces the literal/arithmetic site tables: positions vs lengths, no position+position, no length flowing into a position sink (D1); relative-advance rule for the lexer position (N1); entry-point mode consistency (F4)",
+         " (D1) replaces the tabled-site wording above: every position is start offset + consumed bytes +/- lengths by dimension analysis; (F4) each typed entry point lexes and parses in its own mode."),
+ "C11": ("lexical separation of word tokens (literal pieces ending/starting in identifier characters are the reviewed ones; the lambda keyword separator interpreted over parameter-list shapes) (K1); f-string field opening decided on the rendered text, braces doubled (F1); exact integrality test of the float renderer (N1)",
+         " Also: (K1/F1) the rendering re-lexes into the intended tokens; (N1) only exact integers take the `<digits>.0` rendering."),
+ "C12": ("order-preserving element-wise fold recognised as iterator chain, loop or helper", ""),
+ "C13": ("re-basing rule for line-break searches on a tail slice (B1)", " Also: (B1) a position found in `&source[a..]` is re-based by `a` (sibling agreement of init and locate_inner)."),
+ "C16": ("interpretation of is_printable with the category predicates as free booleans (P1)", " Also: (P1) printable = not Other and not Separator, depending on nothing else."),
+ "C18": ("interpretation of add_magnitude_separators over fill x alignment x width (A3); prefix agreement between the width deduction and the printed prefix (A2); repr exponent window and digits/decimal-point agreement of the float renderer (G1)",
+         " Also: (A2/A3) sign and radix prefix are counted once and grouped digits are zero-extended only under zero padding; (G1) fixed notation exactly for exponents -4..15."),
+ "C19": ("idempotent flag accumulation (F1); digits/decimal-point agreement of the float renderer (G1)", " Also: (F1) repeated flag characters keep the flag set; (G1) the `#` point is decided with the digit count that was rendered."),
+}
+
 def main():
     props = [json.loads(l) for l in open(os.path.join(HERE, "properties.jsonl"))]
     checks, na = [], []
@@ -105,6 +135,10 @@ def main():
         pid = p["id"]
         if pid in CLAIMED:
             ref, tech, text, note = CLAIMED[pid]
+            if pid in ADD:
+                tech = tech + "; " + ADD[pid][0]
+                text = text + ADD[pid][1]
+            tech = tech + "." + COMMON_TECH
             checks.append({
                 "property_id": pid,
                 "quick_cmd": f"bin/check {pid} quick",
@@ -136,7 +170,7 @@ def main():
         ],
         "checks": checks,
         "not_applicable": na,
-        "notes": "Technique family: static analysis only. Every claimed check decides structural necessary conditions of its property (DESIGN.md section 4) from /repo's current sources; none runs the subject. Known findings: known_findings.json.",
+        "notes": "Technique family: static analysis only. Every claimed check decides structural necessary conditions of its property (DESIGN.md section 4 and Part II section 9.4, generated from the evidence) from /repo's current sources; none runs the subject. Known findings and the list of repaired defects: known_findings.json. Self-tests (development aids, not registered commands): seeded/ (64 verified breaking changes), selftest/reverts (reverse patches of the 15 fix: commits), selftest/neutral (36 behaviour-preserving refactorings that must stay silent).",
     }
     json.dump(m, open(os.path.join(HERE, "MANIFEST.json"), "w"), indent=1)
     print("claimed:", sorted(CLAIMED), "na:", [x["property_id"] for x in na])
